@@ -438,10 +438,26 @@ pub fn run(ctx: &Ctx) -> i32 {
         let cls = class_cells(*d);
         cells.extend(cls.iter().step_by(if quick { 37 } else { 11 }).cloned());
         let inv = 1.0 / n as f64;
+        // cells lying across the transition latitudes (centre on it): positions in their equatorial
+        // half, cones smaller than a cell that still contain the cell centre
+        for b in [0u8, 1, 2, 3, 8, 9, 10, 11] {
+          for &i in &class_coords(*d) {
+            let h = encode(*d, b, i, n - 1 - i);
+            let (cx, cy) = center_plane(*d, h);
+            let (lc, bc) = ref_unproj(cx, cy);
+            let toward_equator = if bc > 0.0 { -1.0 } else { 1.0 };
+            for (g, f) in [(0.05, 0.1), (0.05, 0.3), (0.2, 0.3), (0.4, 0.62)] {
+              part.stratum("claim2-local", 1, 3);
+              if let Some(v) = check_claim2_local(*d, lc, bc + toward_equator * g * inv, f * inv, 3, &mut part) {
+                part.viol(v);
+              }
+            }
+          }
+        }
         for h in cells {
           for (px, py) in cell_points_plane(*d, h).iter().step_by(if quick { 2 } else { 1 }) {
             let (lon, lat) = ref_unproj(*px, *py);
-            for f in [0.3, 0.62, 0.7, 1.0, 1.6, 2.4] {
+            for f in [0.1, 0.3, 0.62, 0.7, 1.0, 1.6, 2.4] {
               part.stratum("claim2-local", 1, 3);
               if let Some(v) = check_claim2_local(*d, lon, lat, f * inv, (f * 2.0) as usize + 3, &mut part) {
                 part.viol(v);
